@@ -126,10 +126,17 @@ def g_actions(rng, sc_, depth, budget):
                 sc_.scal.append(n) if n not in sc_.scal else None
         elif r < 0.62:
             ops.append(["stmt", ["assign", "<t>", None, ["+", [V("<t>"), V("<dt>")]], []]])
-        elif r < 0.7:
+        elif r < 0.68:
             ops.append(["stmt", ["call", ["a"], "<builtin>array", [C(N)], []]])
             ops.append(["stmt", ["assign", "a", V("i"), ["+", [g_scal(rng, sc_, 1), V("i")]], [["i", C(0), C(N)]]]])
             sc_.arr.append("a") if "a" not in sc_.arr else None
+        elif r < 0.72 and len(VECTORS) >= 2:
+            # two user-type temporaries made by ONE call and used last by ONE statement
+            lo, hi = rng.sample(VECTORS, 2)
+            ops.append(["stmt", ["call", [lo, hi], "<func>split", [V(rng.choice(sc_.vec))], []]])
+            ops.append(["stmt", ["assign", "<state>y", None, ["+", [V(lo), V(hi)]], []]])
+            for n in (lo, hi):
+                sc_.vec.append(n) if n not in sc_.vec else None
         elif r < 0.74:
             # a PERSISTENT array re-created with a size that differs between occurrences (phases, branches, run
             # calls), filled completely, then used as a whole (len, norm_2): storage kept from a larger incarnation shows
@@ -217,6 +224,15 @@ def make_generator(module_name="meth", **kw):
     freg = register_ode_rhs(base_function_registry, "y", identifier="<func>rhs", input_names=("y",))
     freg = freg.register_codegen("<func>rhs", "fortran", f.CallCode("""
         ${result} = -2*${y} + ${t}
+        """))
+    # a user function with TWO user-type results (one statement is then the first mention of two temporaries)
+    from dagrt.data import UserType
+    from dagrt.function_registry import register_function
+    freg = register_function(freg, "<func>split", ("y",), result_names=("lo", "hi"),
+                             result_kinds=(UserType("y"), UserType("y")))
+    freg = freg.register_codegen("<func>split", "fortran", f.CallCode("""
+        ${lo} = 2*${y}
+        ${hi} = -${y}
         """))
     return f.CodeGenerator(module_name, function_registry=freg,
                            user_type_map={"y": f.ArrayType((N,), f.BuiltinType("real*8"))},
@@ -357,7 +373,7 @@ def run_interpreter(m):
     import numpy as np
     from dagrt.exec_numpy import FailStepException, NumpyInterpreter, TransitionEvent
     code = build_code(m)
-    interp = NumpyInterpreter(code, {"<func>rhs": lambda t, y: -2 * y + t})
+    interp = NumpyInterpreter(code, {"<func>rhs": lambda t, y: -2 * y + t, "<func>split": lambda y: (2 * y, -y)})
     interp.set_up(t_start=float(m["t0"]), dt_start=float(m["dt"]), context={"y": np.array([float(v) for v in m["y0"]])})
     interp.context["<p>k"] = float(m["k0"])
     phase_ids = {name: k for k, name in enumerate(sorted(code.phases))}
